@@ -9,6 +9,9 @@ def sh(cmd, cwd=W):
     return p.returncode, p.stdout
 def main():
     pid, x = sys.argv[1], sys.argv[2]
+    if not os.path.isdir(W):
+        # scratch worktree of /repo; remove it afterwards: git -C /repo worktree remove --force /tmp/mymut
+        subprocess.run(["git", "-C", "/repo", "worktree", "add", "-q", "--detach", W, "HEAD"], check=True)
     src = os.environ.get("MUTDIR", "/tmp/mut") + "/%s.out" % pid
     patch = "%s/%s.patch.diff" % (src, x)
     demo = "%s/%s.demo.rs" % (src, x)
